@@ -56,6 +56,12 @@ def define_all():
     from krrood.entity_query_language.predicate import Predicate, symbolic_function
     ns = {"Predicate": Predicate, "symbolic_function": symbolic_function, "dataclass": dataclass, "LOG": LOG,
           "truth": truth}
+    exec("""
+@symbolic_function
+def inner(v):
+    # result of a nested symbolic call used as an argument; 0 (falsy) for x0
+    return v.a
+""", ns)
     defaults = {2: "p2: object = 10", 3: "p3: object = 20"}
     fdefaults = {2: "p2=10", 3: "p3=20"}
     for n in (1, 2, 3):
@@ -98,7 +104,7 @@ class H{n}{d}:
     return NAMESPACE
 
 
-SOURCES = ["x", "x.a", "y", "conc"]
+SOURCES = ["x", "x.a", "y", "conc", "inner(x)"]
 
 
 def shapes():
@@ -134,8 +140,11 @@ def run_case(case):
     Y = [PItem("y0", 0), PItem("y1", 1)]
     x = let(PItem, list(X), name="x")
     y = let(PItem, list(Y), name="y")
+    ns_inner = ns["inner"]
     sym = {"x": x, "x.a": x.a, "y": y, "conc": 7}
-    conc = lambda s, bx, by: bx if s == "x" else bx.a if s == "x.a" else by if s == "y" else 7
+    if "inner(x)" in srcs:
+        sym["inner(x)"] = ns_inner(x)
+    conc = lambda s, bx, by: bx if s == "x" else bx.a if s in ("x.a", "inner(x)") else by if s == "y" else 7
     names = [f"p{i}" for i in range(1, given + 1)]
     pos = [sym[s] for s in srcs[:k]]
     kw_items = [(names[i], sym[srcs[i]]) for i in range(k, given)]
@@ -189,7 +198,7 @@ def run_case(case):
     if LOG:
         res.failures.append(Failure("ran-at-construction", f"{label}: body ran {len(LOG)} time(s) while the condition was built"))
     uses_y = "y" in srcs
-    uses_x = any(s in ("x", "x.a") for s in srcs)
+    uses_x = any(s in ("x", "x.a", "inner(x)") for s in srcs)
     try:
         if uses_x and uses_y:
             rows = [(row[x], row[y]) for row in an(set_of([x, y], r)).evaluate()]
